@@ -9,6 +9,7 @@
 mod common;
 mod e1;
 mod e2;
+mod e3;
 mod engine;
 mod hooks;
 mod regs;
